@@ -15,7 +15,7 @@ BASE_PROFILE = dict(
     block_depth=3,
     kinds=2,
     w_stmt=dict(
-        yield_=8, sync=1.0, raise_=0.5, try_=1.2, with_=1.0, read=0.0, ret=0.3, orphan=0.2, probe=0.0
+        yield_=8, sync=1.0, raise_=0.5, try_=1.2, with_=1.0, read=0.0, ret=0.3, orphan=0.2, probe=0.0, syncitem=0.0
     ),
     w_leaf=dict(
         call=6, item=4, const=1, none=0.6, err=0.3, lazy=0.3, again=0.5, junk=0.1, dbg=0.3
@@ -138,7 +138,7 @@ class Gen(object):
             return ["item", k, key]
         if kind == "dbg":
             self.key += 1
-            return ["dbg", "d%d" % rnd.randrange(2), "k%d" % self.key]
+            return ["dbg", "d%d" % rnd.randrange(self.p.get("dbg_names", 2)), "k%d" % self.key]
         if kind == "const":
             return ["const", rnd.choice([0, 1, "x", None, ["t", self.new_site("v")]])]
         if kind == "none":
@@ -253,6 +253,13 @@ class Gen(object):
                     )
             elif op == "probe":
                 out.append(["probe", rnd.randrange(1000)])
+            elif op == "syncitem":
+                self.key += 1
+                k = self.pick_kind()
+                key = "k%d" % self.key
+                if rnd.random() < self.p["p_item_fault"]:
+                    self.faults["%s:%s" % (k, key)] = rnd.choice(self.p["item_fault_modes"])
+                out.append(["syncitem", self.new_site("y"), k, key])
         return out
 
     def program(self):
